@@ -1059,8 +1059,8 @@ func (w *walker) switchStmt(x *ast.SwitchStmt) {
 		w.calls(x.Tag)
 		tag = w.canon(x.Tag)
 	}
+	// a switch (with or without tag) is the if / else-if chain on its case conditions, `default` last
 	var before []Cond // negations of the cases so far
-	var after []Cond  // negations of the terminating cases, for the code behind the switch
 	allAssigned := map[*ast.Object]bool{}
 	var deflt *ast.CaseClause
 	clauses := []*ast.CaseClause{}
@@ -1072,9 +1072,17 @@ func (w *walker) switchStmt(x *ast.SwitchStmt) {
 		}
 		clauses = append(clauses, cc)
 	}
+	type arm struct {
+		term   bool
+		before []Cond // what holds when the arm is tried
+		own    []Cond // its own condition (nil for default)
+		learnt []Cond
+	}
+	var arms []arm
 	for _, cc := range clauses {
 		var alts []string
 		for _, v := range cc.List {
+			w.calls(v)
 			if tag != "" {
 				l, r := orderOperands(tag, w.canon(v))
 				alts = append(alts, l+"=="+r)
@@ -1091,31 +1099,53 @@ func (w *walker) switchStmt(x *ast.SwitchStmt) {
 		at := len(w.tr.Events)
 		pathBefore := append(append([]Cond(nil), w.path...), before...)
 		term := w.terminates(cc.Body)
-		from, to, _ := w.branch(cc.Body, append(append([]Cond(nil), before...), tagged(own, 'E')...))
-		saved := w.path
-		w.path = pathBefore
+		from, to, learnt := w.branch(cc.Body, append(append([]Cond(nil), before...), tagged(own, 'E')...))
 		w.recordGuard(at, own, pathBefore, term, from, to)
-		w.path = saved
-		neg := tagged(negAll(cond), 'S')
-		before = append(before, neg...)
-		if term {
-			after = append(after, neg...)
-		} else {
+		arms = append(arms, arm{term, append([]Cond(nil), before...), tagged(own, 'S'), learnt})
+		before = append(before, tagged(negAll(cond), 'S')...)
+		if !term {
 			for o := range assignedIn(stmtsNode(cc.Body)) {
 				allAssigned[o] = true
 			}
 		}
 	}
 	if deflt != nil {
-		w.branch(deflt.Body, before)
-		if !w.terminates(deflt.Body) {
+		term := w.terminates(deflt.Body)
+		_, _, learnt := w.branch(deflt.Body, before)
+		arms = append(arms, arm{term, append([]Cond(nil), before...), nil, learnt})
+		if !term {
 			for o := range assignedIn(stmtsNode(deflt.Body)) {
 				allAssigned[o] = true
 			}
 		}
+	} else {
+		// no default: falling through all cases is an (empty) arm that goes on
+		arms = append(arms, arm{false, append([]Cond(nil), before...), nil, nil})
 	}
 	w.invalidate(allAssigned)
-	w.path = append(w.path, after...)
+	// what the code behind the switch knows
+	var open []arm
+	for _, a := range arms {
+		if !a.term {
+			open = append(open, a)
+		}
+	}
+	if len(open) == 1 {
+		// the only way on: everything that arm knows
+		w.path = append(append(append(w.path, open[0].before...), open[0].own...), open[0].learnt...)
+		return
+	}
+	// otherwise only the negations of the leading arms that all exit
+	for _, a := range arms {
+		if !a.term || a.own == nil {
+			break
+		}
+		var txt []string
+		for _, c := range a.own {
+			txt = append(txt, c.Text)
+		}
+		w.path = append(w.path, tagged(negAll(strings.Join(txt, "&&")), 'S')...)
+	}
 }
 
 func (w *walker) loop(body *ast.BlockStmt, rng string) {
